@@ -665,9 +665,11 @@ private:
 	// cst is either linear_constraint or reference_constraint
         auto cst = *(csts.begin());
         env.set(x, typename BoolToCstEnv::mapped_type(cst.negate()));
-      } else if (csts.size() > 1) { 
-	// we do not negate multiple conjunctions because it would
-	// become a disjunction so we give up
+      } else {
+	// If there are several constraints we do not negate the
+	// conjunction because it would become a disjunction so we give
+	// up. If there is none then nothing is known about x either
+	// (its old constraints must be forgotten).
         env -= x;
       }
     }
@@ -850,8 +852,56 @@ private:
   /**
    * Reduction from the non-boolean domain to the flat boolean domain.
    */
+  // Forget the constraints (attached to any boolean variable) that
+  // mention v. It must be called before v is marked again as
+  // unchanged if v has been modified in the meantime: otherwise the
+  // old constraints, which talk about the old value of v, would be
+  // considered valid again.
+  void forget_constraints_with(const variable_t &v) {
+    transform_if(m_bool_to_lincsts,
+		 [&v](const lincst_set_t &s) {
+		   if (s.is_top() || s.is_bottom()) {
+		     return false;
+		   }
+		   for (auto const &c : s) {
+		     for (auto const &u : c.variables()) {
+		       if (u == v) {
+			 return true;
+		       }
+		     }
+		   }
+		   return false;
+		 },
+		 [](lincst_set_t &s) { s = lincst_set_t::top();});
+    transform_if(m_bool_to_refcsts,
+		 [&v](const refcst_set_t &s) {
+		   if (s.is_top() || s.is_bottom()) {
+		     return false;
+		   }
+		   for (auto const &c : s) {
+		     for (auto const &u : c.variables()) {
+		       if (u == v) {
+			 return true;
+		       }
+		     }
+		   }
+		   return false;
+		 },
+		 [](refcst_set_t &s) { s = refcst_set_t::top();});
+  }
+
+  void mark_as_unchanged(const variable_t &v) {
+    if (!m_unchanged_vars.at(v)) {
+      forget_constraints_with(v);
+    }
+    m_unchanged_vars += v;
+  }
+
   void reduce_num_cst_to_bool(const variable_t &x,
 			      const linear_constraint_t &cst) {
+    // x is redefined: forget what its old value stood for
+    m_bool_to_lincsts -= x;
+    m_bool_to_refcsts -= x;
     if (cst.is_tautology()) {
       m_product.first().set_bool(x, boolean_value::get_true());
     } else if (cst.is_contradiction()) {
@@ -868,12 +918,12 @@ private:
 	m_product.first().set_bool(x, boolean_value::top());
       }
       
-      m_bool_to_lincsts.set(x, lincst_set_t(cst));
       // We assume all variables in cst are unchanged unless the
       // opposite is proven
       for (auto const &v : cst.variables()) {
-	m_unchanged_vars += v;
+	mark_as_unchanged(v);
       }
+      m_bool_to_lincsts.set(x, lincst_set_t(cst));
     }
     m_bool_to_bools -= x;
   }
@@ -883,6 +933,9 @@ private:
    */  
   void reduce_ref_cst_to_bool(const variable_t &x,
 			      const reference_constraint_t &cst) {
+    // x is redefined: forget what its old value stood for
+    m_bool_to_lincsts -= x;
+    m_bool_to_refcsts -= x;
     if (cst.is_tautology()) {
       m_product.first().set_bool(x, boolean_value::get_true());
     } else if (cst.is_contradiction()) {
@@ -904,12 +957,12 @@ private:
 	  m_product.first().set_bool(x, boolean_value::top());
 	}
       }
-      m_bool_to_refcsts.set(x, refcst_set_t(cst));
       // We assume all variables in cst are unchanged unless the
       // opposite is proven
       for (auto const &v : cst.variables()) {
-	m_unchanged_vars += v;
+	mark_as_unchanged(v);
       }
+      m_bool_to_refcsts.set(x, refcst_set_t(cst));
     }
     m_bool_to_bools -= x;
 
@@ -1256,6 +1309,15 @@ public:
     }
   }
   
+  // Remove x from every set of booleans implied by another
+  // boolean. This must be done whenever the boolean variable x is
+  // (re)defined because those sets talk about the old value of x.
+  void remove_from_bool_sets(const variable_t &x) {
+    transform_if(m_bool_to_bools,
+		 [&x](const bool_set_t &s) { return s.at(x);},
+		 [&x](bool_set_t &s) { s -= x;});
+  }
+
   void operator-=(const variable_t &v) override {
     m_product -= v;
     if (v.get_type().is_bool()) {
@@ -1290,6 +1352,8 @@ public:
 
     m_product.assign_bool_cst(x, cst);
     reduce_num_cst_to_bool(x, cst);
+    m_bool_to_bools -= x;
+    remove_from_bool_sets(x);
 
     CRAB_LOG("flat-boolean", auto bx = m_product.first().get_bool(x);
              crab::outs() << "*** Reduction non-boolean --> boolean\n "
@@ -1311,6 +1375,8 @@ public:
 
     m_product.assign_bool_ref_cst(x, cst);
     reduce_ref_cst_to_bool(x, cst);
+    m_bool_to_bools -= x;
+    remove_from_bool_sets(x);
     
     CRAB_LOG("flat-boolean", auto bx = m_product.first().get_bool(x);
              crab::outs() << "*** Reduction non-boolean --> boolean\n "
@@ -1340,6 +1406,7 @@ public:
       // TODO: we don't handle negative booleans in m_bool_to_bools.
       m_bool_to_bools -= x;
     }
+    remove_from_bool_sets(x);
 
     CRAB_LOG("flat-boolean",
              crab::outs() << "\tunchanged vars=" << m_unchanged_vars << "\n"
@@ -1392,6 +1459,7 @@ public:
       // TODO: we don't handle or/xor
       m_bool_to_bools -= x;
     }
+    remove_from_bool_sets(x);
   }
 
   void assume_bool(const variable_t &x, bool is_negated) override {
@@ -1444,7 +1512,10 @@ public:
 	  m_bool_to_bools.set(lhs, m_bool_to_bools.at(b2) & bool_set_t(b2));
 	  // TODO: we don't handle negative booleans in
 	  // m_bool_to_bools so we don't add not(cond)
+	} else {
+	  m_bool_to_bools -= lhs;
 	}
+	remove_from_bool_sets(lhs);
       }
     }
 
@@ -1515,6 +1586,10 @@ public:
     if (op == OP_TRUNC && (get_bitwidth(src) > 1 && get_bitwidth(dst) == 1)) {
       // -- int to bool:
       // assume that zero is false and non-zero is true
+      m_bool_to_lincsts -= dst;
+      m_bool_to_refcsts -= dst;
+      m_bool_to_bools -= dst;
+      remove_from_bool_sets(dst);
       interval_t i_src = m_product.second()[src];
       interval_t zero = interval_t(number_t(0));
       if (i_src == zero) {
